@@ -328,3 +328,54 @@ def canary_trace(chk: Check, trace, module="RecordTrace"):
         raise MachineryFailure(f"canary: corrupted trace was accepted (expected rejection at line {line}, got {lines})")
     chk.extra["canary_trace_rejected_at_line"] = line
     chk.note(f"canary: corrupted trace rejected at line {line}")
+
+
+def replay_file(pid: str, path: str) -> int:
+    """Re-execute a recorded violation against the current tree: exit 1 (and the VIOLATION
+    line) if the implementation still leaves the specified outcome set, else 0."""
+    import json
+    d = json.load(open(path))
+    rep = d["replay"]
+    hdr = rep["hdr"]
+    impl = RecordImpl(hdr)
+    ops = rep.get("path")
+    if ops is None:
+        ops = rep.get("ops", [])[:-1]
+    for o in ops:
+        impl.apply(o)
+    op = rep.get("op")
+    if op is None or op == "path":
+        got = impl.project()
+        ok = graph.canon(got) == graph.canon(rep.get("expected_state"))
+        print(f"[{pid}] replay: state after path {'matches' if ok else 'differs from'} the specified state")
+    else:
+        ret = impl.apply(op)
+        st = impl.project()
+        exp = rep.get("expected") or []
+        ok = any(graph.canon(o["ret"]) == graph.canon(ret) and graph.canon(o["st"]) == graph.canon(st) for o in exp)
+        print(f"[{pid}] replay: op={op} observed ret={ret} state={st}")
+        print(f"[{pid}] replay: specified outcomes={exp}")
+    if ok:
+        print(f"[{pid}] replay: the recorded violation no longer reproduces")
+        return 0
+    print(f"VIOLATION property={pid} replay={path}")
+    return 1
+
+
+def canary_replay(chk: Check, g: graph.Graph, consts: dict, rng):
+    """A replay in which the implementation's reported return values are corrupted must
+    produce mismatches; otherwise the comparison is not comparing anything."""
+    def deviate(op, ret, st):
+        if ret.get("t") == "val":
+            ret = dict(ret, v=[x + 2 for x in ret["v"]])
+        elif ret.get("t") == "sel":
+            ret = dict(ret, r=[{"x": "ex", "v": -5}] + list(ret["r"][1:]))
+        elif ret.get("t") in ("ok", "ins") and st.get("kind") == "ready":
+            st = dict(st, ptr=(st["ptr"] + 1) % max(st["n"], 2))
+        return ret, st
+    stats, mism = replay_graph(chk, g, consts, budget=400, rng=rng, param=False, tick=0.25, deviate=deviate,
+                               report=False)
+    if not mism:
+        raise MachineryFailure("canary: deviating replay produced no mismatch")
+    chk.extra["canary_replay_mismatches"] = len(mism)
+    chk.note(f"canary: deviating replay rejected ({len(mism)} mismatches in {stats.edges} edges)")
